@@ -6,13 +6,15 @@ import (
 	"sync"
 )
 
+const udpRule = "case = key list (mixed ciphers, duplicates) + 3..12 datagram operations from 4 client sockets (2 sharing an IP, 3 IPs) to 3 scripted targets (IPv4, IPv6, domain names) through the real PacketHandler on loopback UDP: valid, wrong-key (also on live associations), wrong-cipher, garbage, truncated, bad address type, refused destination (default policy), 0..2 replies per datagram, one idle period longer than the NAT timeout; observed per datagram: forwarded or not, source socket, payload, metric calls with sizes, replies as decrypted by the client; non-trivial = distinct operation sequences with at least one forwarded and one rejected datagram"
+
 func genUDPCase(r *Rng, prop string) udpCaseSpec {
 	nkeys := []int{1, 2, 4, 8}[r.Intn(4)]
 	cs := udpCaseSpec{Cfg: genCfg(r, nkeys, nkeys+2), Validate: r.Chance(12)}
 	nops := r.Range(3, 12)
 	expired := false
 	for i := 0; i < nops; i++ {
-		if !expired && i > 2 && r.Chance(4) {
+		if !expired && i > 2 && (r.Chance(4) || (prop == "C14" && r.Chance(25))) {
 			cs.Ops = append(cs.Ops, udpOp{Kind: "expire"})
 			expired = true
 			continue
@@ -47,17 +49,25 @@ func genUDPCase(r *Rng, prop string) udpCaseSpec {
 }
 
 func cUDP(ctx *Ctx, prop string) {
-	r := ctx.Rng
-	ctx.Stats.Rule = "case = key list (mixed ciphers, duplicates) + 3..12 datagram operations from 4 client sockets (2 sharing an IP, 3 IPs) to 3 scripted targets (IPv4, IPv6, domain names) through the real PacketHandler on loopback UDP: valid, wrong-key (also on live associations), wrong-cipher, garbage, truncated, bad address type, refused destination (default policy), 0..2 replies per datagram, one idle period longer than the NAT timeout; observed per datagram: forwarded or not, source socket, payload, metric calls with sizes, replies as decrypted by the client; non-trivial = distinct operation sequences with at least one forwarded and one rejected datagram"
 	n := 90
 	if ctx.Thorough() {
 		n = 1000
+	}
+	cUDPInto(ctx, prop, n, 0)
+}
+
+// cUDPInto runs n UDP cases and writes their Coq case files starting at the given shard number.
+func cUDPInto(ctx *Ctx, prop string, n int, shard int) {
+	r := ctx.Rng
+	if ctx.Stats.Rule == "" {
+		ctx.Stats.Rule = udpRule
 	}
 	type job struct {
 		spec   udpCaseSpec
 		obs    []udpOpObs
 		tports []int
 		fatal  string
+		shut   int
 	}
 	jobs := make([]*job, n)
 	for i := range jobs {
@@ -71,12 +81,11 @@ func cUDP(ctx *Ctx, prop string) {
 		go func(j *job) {
 			defer wg.Done()
 			defer func() { <-sem }()
-			j.obs, j.tports, j.fatal = runUDPCase(&j.spec)
+			j.obs, j.tports, j.fatal, j.shut = runUDPCase(&j.spec)
 		}(j)
 	}
 	wg.Wait()
 	var terms []string
-	shard := 0
 	for ji, j := range jobs {
 		if j.fatal != "" || len(j.obs) != len(j.spec.Ops) {
 			ctx.Monitor(prop+"/udp-handler-failure", "PacketHandler failed: "+j.fatal, j.spec)
@@ -99,7 +108,7 @@ func cUDP(ctx *Ctx, prop string) {
 				ctx.Count("report:" + j.obs[i].Report.Status)
 			}
 		}
-		udpMonitors(ctx, prop, &j.spec, j.obs)
+		udpMonitors(ctx, prop, &j.spec, j.obs, j.shut)
 		if fw > 0 && rej > 0 {
 			ctx.NonTrivial(fmt.Sprintf("%+v", j.spec))
 		}
@@ -121,7 +130,7 @@ func cUDP(ctx *Ctx, prop string) {
 }
 
 // udpMonitors: the properties themselves on the implementation's observables.
-func udpMonitors(ctx *Ctx, prop string, cs *udpCaseSpec, obs []udpOpObs) {
+func udpMonitors(ctx *Ctx, prop string, cs *udpCaseSpec, obs []udpOpObs, shutdownRemoved int) {
 	inCfg := func(c, s int) (bool, string) {
 		for _, k := range cs.Cfg {
 			if k.C == c && k.S == s {
@@ -251,6 +260,10 @@ func udpMonitors(ctx *Ctx, prop string, cs *udpCaseSpec, obs []udpOpObs) {
 			sumClientWire += int64(udpWireLen(op))
 		}
 	}
+	if shutdownRemoved != len(live) {
+		ctx.Monitor("C14/shutdown-does-not-expire-all", fmt.Sprintf("%d associations alive when the listener was closed, %d removals followed", len(live), shutdownRemoved), cs)
+	}
+	ctx.CountN("shutdown:associations-expired", shutdownRemoved)
 	if sumReportedWire != sumClientWire {
 		ctx.Monitor("C16/wire-bytes-sum", fmt.Sprintf("client datagrams on associations: %d bytes on the wire, %d reported", sumClientWire, sumReportedWire), cs)
 	}
